@@ -249,9 +249,7 @@ fn relation(op: &Op, pre: &NTree, post: &NTree, res: &Res, sa: &str, da: &str, w
         }
     }
     for k in post.nodes.keys() {
-        // under follow the copy is made into dst even when dst is an existing directory's sibling name space
-        let in_da = follow && (k == da || is_under(k, da));
-        if !pre.nodes.contains_key(k) && !(*k == droot || is_under(k, &droot) || is_under(&droot, k) || in_da) {
+        if !pre.nodes.contains_key(k) && !(*k == droot || is_under(k, &droot) || is_under(&droot, k)) {
             v.push(("outside-destination-unchanged→new-entry".into(), k.clone()));
             break;
         }
@@ -260,6 +258,20 @@ fn relation(op: &Op, pre: &NTree, post: &NTree, res: &Res, sa: &str, da: &str, w
         v.push(("outside-destination-unchanged→cwd".into(), post.cwd.clone()));
     }
     v
+}
+
+/// copy under follow of a source tree that itself contains links (the class of the recorded finding: what is behind
+/// such a link is copied under the TARGET's path, wherever that lands)
+fn follow_srclinks(op: &Op, pre: &NTree, sa: &str) -> bool {
+    let follow = matches!(op, Op::CopyB(_, _, _, true));
+    if !follow {
+        return false;
+    }
+    let sroot = match pre.nodes.get(sa).map(|n| n.kind.clone()) {
+        Some(NKind::Link { target, .. }) => target,
+        _ => sa.to_string(),
+    };
+    pre.nodes.contains_key(&sroot) && pre.subtree(&sroot).iter().any(|k| matches!(pre.nodes[k].kind, NKind::Link { .. }))
 }
 
 fn c09_ops(all: &[String], thorough: bool) -> Vec<Op> {
@@ -306,7 +318,7 @@ fn c09(ctx: &Ctx, rep: &mut Report) {
         for op in &ops {
             let pth = op.paths();
             let (sa, da) = (go_clean(pth[0]), go_clean(pth[1]));
-            let cls = arg_classes(state, &model, op);
+            let cls = format!("{}{}", arg_classes(state, &model, op), if follow_srclinks(op, state, &sa) { "+srclinks" } else { "" });
             // ---- Memfs
             let mut ls = LockStep::new(Mode::Model);
             let mut scratch = Report::new();
